@@ -110,6 +110,7 @@ type PkgContracts struct {
 	Assumes  []string
 	Files    []string
 	Bits     map[string]int
+	PureFields  map[string]bool // "Type.Field": calling the func value stored in this field has no side effects (assumed)
 	FreshResult []string // functions (localKey prefix) whose slice/pointer result is exclusively owned (assumed)
 }
 
@@ -447,7 +448,7 @@ func (p *parser) primary() Expr {
 
 var blockRe = regexp.MustCompile(`(?s)/\*@(.*?)@\*/`)
 var clauseKw = map[string]bool{"requires": true, "ensures": true, "modifies": true, "loop": true, "panics": true,
-	"assume": true, "exit": true, "func": true, "pred": true, "spec": true, "inline": true, "noinline": true, "pure": true, "ghost": true, "rec": true, "bits": true, "unfold": true, "logs": true, "overflow": true, "freshresult": true, "lemma": true, "bitwidth": true, "ufun": true}
+	"assume": true, "exit": true, "func": true, "pred": true, "spec": true, "inline": true, "noinline": true, "pure": true, "ghost": true, "rec": true, "bits": true, "unfold": true, "logs": true, "overflow": true, "freshresult": true, "lemma": true, "bitwidth": true, "ufun": true, "purefield": true}
 
 // ReadContracts parses every contracts_verif*.go file of a package directory.
 func ReadContracts(dir string) (*PkgContracts, error) {
@@ -580,6 +581,13 @@ func (pc *PkgContracts) parseBlock(body, file string, line0 int) error {
 			}
 			pd.Body = e
 			pc.Preds[pd.Name] = pd
+		case "purefield":
+			cur = nil
+			if pc.PureFields == nil {
+				pc.PureFields = map[string]bool{}
+			}
+			pc.PureFields[strings.TrimSpace(it.text)] = true
+			pc.Assumes = append(pc.Assumes, "purefield "+strings.TrimSpace(it.text)+": calls through this function-typed field have no effect on modelled state")
 		case "freshresult":
 			cur = nil
 			pc.FreshResult = append(pc.FreshResult, strings.TrimSpace(it.text))
